@@ -88,7 +88,7 @@ class Impl(impl_array.Impl):
                       + ("" if ok else ":BAD-ARRAYS"))
         rs = " ; ".join(f"{tilde(n)}:{fmt_dimset(p.dims)}:{' '.join(fmt_num(x) for x in np.asarray(p.values, dtype=float).flatten())}"
                         for n, p in mfa.parameters.items())
-        return f"ok P {ps} | F {fs} | S {' ; '.join(ss)} | R {rs}"
+        return f"ok P {ps} | F {fs} | S {' ; '.join(ss)} | R {rs} | D {','.join(mfa.dims.letters)}"
 
     def definition(self):
         b = self.b
@@ -99,7 +99,7 @@ class Impl(impl_array.Impl):
             raise ValueError("to_dfs cases do not restrict the defined letters")
         flowdefs = [FlowDefinition(from_process_name=f, to_process_name=t, dim_letters=ls, name_override=ov)
                     for f, t, ls, ov in b["flows"]]
-        stockdefs = [StockDefinition(name=name, process_name=proc, dim_letters=ls, time_letter=tl, subclass=CLS[cls],
+        stockdefs = [StockDefinition(name=name, process_name=proc, dim_letters=ls, **({} if tl == "-" else {"time_letter": tl}), subclass=CLS[cls],
                                      lifetime_model_class=None if lm == "none" else getattr(lm_mod, lm), solver=solver)
                      for name, proc, ls, tl, cls, lm, solver in b["stocks"]]
         paramdefs = [ParameterDefinition(name=n, dim_letters=ls) for n, ls, _ in b["params"]]
@@ -135,7 +135,7 @@ class Impl(impl_array.Impl):
                     for f, t, ls, ov in b["flows"]]
         stockdefs = []
         for name, proc, ls, tl, cls, lm, solver in b["stocks"]:
-            stockdefs.append(StockDefinition(name=name, process_name=proc, dim_letters=ls, time_letter=tl, subclass=CLS[cls],
+            stockdefs.append(StockDefinition(name=name, process_name=proc, dim_letters=ls, **({} if tl == "-" else {"time_letter": tl}), subclass=CLS[cls],
                                              lifetime_model_class=None if lm == "none" else getattr(lm_mod, lm), solver=solver))
         paramdefs = [ParameterDefinition(name=n, dim_letters=ls) for n, ls, _ in b["params"]]
         definition = MFADefinition(dimensions=dimdefs, processes=b["procs"], flows=flowdefs, stocks=stockdefs,
@@ -249,7 +249,7 @@ class Impl(impl_array.Impl):
                 raise ValueError
             self.b["naming"] = t[1]; return "ok"
         if op == "b_flow":
-            self.b["flows"].append((untilde(t[1]), untilde(t[2]), letters_of(t[3]), None if t[4] == "-" else untilde(t[4]))); return "ok"
+            self.b["flows"].append((untilde(t[1]), untilde(t[2]), letters_of(t[3]), None if t[4] == "-" else ("" if t[4] == "<empty>" else untilde(t[4])))); return "ok"
         if op == "b_stock":
             if t[5] not in CLS:
                 raise ValueError
